@@ -20,7 +20,7 @@ RULE = (
     "days; datetimes with microseconds 0/1/999999 and zones naive/UTC/+-hh:mm; timedeltas 0, 1s, 59s, 1d, "
     "multi-day, negative, 400d; None) plus random values, through carriers {Cell(), Cell.value=, "
     "Cell.set_value, Row.set_value, Table.set_value, VarSet(+set_value), UserFieldDecl(+set_value), "
-    "UserDefined, numbers also as percentage and currency cells (Cell(cell_type=), set_value(cell_type=, currency=)), Meta.set_user_defined_metadata (new entry and overwrite of an entry of another type)} and "
+    "UserDefined (also built from the document's metadata entry of that name, with a fallback value), numbers also as percentage and currency cells (Cell(cell_type=), set_value(cell_type=, currency=)), Meta.set_user_defined_metadata (new entry and overwrite of an entry of another type)} and "
     "paths {direct, reparse of the element, document save->reopen}. One evaluation = one (value, carrier, "
     "path) read-back judged for value, Python type and lexical form of the written attribute. Class = "
     "(carrier, Python type, boundary tag, path). Sequences: rows of 2..8 values whose neighbours are often "
@@ -169,7 +169,7 @@ def lexical_issue(v, attrs, prefix=OFFICE, text=None, numeric_type="float"):
 
 CELL_CARRIERS = ["Cell()", "Cell.value=", "Cell.set_value", "Row.set_value", "Table.set_value"]
 TYPED_CELL_CARRIERS = ["Cell(percentage)", "Cell(currency)", "Cell.set_value(percentage)", "Table.set_value(currency)"]  # numbers only
-VAR_CARRIERS = ["VarSet()", "VarSet.set_value", "UserFieldDecl()", "UserFieldDecl.set_value", "UserDefined()"]
+VAR_CARRIERS = ["VarSet()", "VarSet.set_value", "UserFieldDecl()", "UserFieldDecl.set_value", "UserDefined()", "UserDefined(from_document)"]
 
 
 def store(carrier, v):
@@ -220,7 +220,19 @@ def store(carrier, v):
         return e, lambda e: e.get_value()
     if carrier == "UserDefined()":
         return UserDefined("d", value=v), lambda e: e.get_value()
+    if carrier == "UserDefined(from_document)":
+        # the field takes its value from the metadata entry of that name; the value argument is only a fallback
+        from odfdo import Document
+
+        doc = _DOC.setdefault("doc", Document("text"))
+        _DOC["n"] = _DOC.get("n", 0) + 1
+        name = f"vf entry {_DOC['n']}"
+        doc.meta.set_user_defined_metadata(name, v)
+        return UserDefined(name, value="fallback", from_document=doc), lambda e: e.get_value()
     raise KeyError(carrier)
+
+
+_DOC: dict = {}
 
 
 def value_node(el):
@@ -290,7 +302,10 @@ def judge_one(res, carrier, v, tname, tag):
         if not ok:
             report(path, "value", {"got": got, "got_type": type(got).__name__, "why": why})
     nt = "percentage" if "percentage" in carrier else "currency" if "currency" in carrier else "float"
-    issue = lexical_issue(v, value_node(el).attrib, numeric_type=nt)
+    lv = v
+    if carrier == "UserDefined(from_document)" and type(v) is dt.date:
+        lv = dt.datetime(v.year, v.month, v.day)  # metadata hands a date back as a datetime at midnight: the field carries that
+    issue = lexical_issue(lv, value_node(el).attrib, numeric_type=nt)
     if issue:
         report("xml", "lexical", {"issue": issue, "xml": el.serialize()[:300]})
 
